@@ -76,6 +76,9 @@ class PacketCapture:
             PacketCapture._logger_instances.append(self.inbound_logger)
 
         logger.setLevel(60)  # Custom log level > CRITICAL to prevent any unwanted standard DEBUG-CRITICAL logs
+        for handler in logger.handlers[:]:  # one file per logger: a frame is written once, into the current episode's file
+            logger.removeHandler(handler)
+            handler.close()
         logger.addHandler(file_handler)
 
         logger.addFilter(_JSONFilter())
